@@ -32,7 +32,7 @@ ASSUMPTIONS = ["sub-fibers are never attached by hand (append / __setitem__ of a
                "Tensor.updatePayloads is used with leaf->leaf functions",
                "histories continue on a transform result only while it keeps integer coordinates"]
 
-MUT = ["ref", "ref", "ref", "populate", "populate", "denseref", "assign", "clear", "positionRef", "fiber_arith"]
+MUT = ["ref", "ref", "ref", "populate", "populate", "denseref", "assign", "clear", "positionRef", "fiber_arith", "insert"]
 TRANS = ["setRoot", "fromFiber_owned", "deepcopy", "splitUniform", "splitEqual", "splitNonUniform", "splitUnEqual", "swizzle", "swap",
          "flatten_unflatten", "merge", "t_updateCoords", "t_updatePayloads", "yaml"]
 READ = ["eq", "union", "uncompress", "print", "format"]
